@@ -227,11 +227,17 @@ def _d_to_dense(mjm, vals):
   return A
 
 
+_ILLCOND = {}  # world -> set of block start dofs with reference cond > 1e6 (filled per case by check())
+
+
 def _residual(rec, name, A, x, b, blocks, sig, **ctx):
   """Normwise backward error per tree block (A is block diagonal over trees)."""
   x = np.asarray(x, dtype=np.float64)
   b = np.asarray(b, dtype=np.float64)
-  if not np.all(np.isfinite(x)):
+  # blocks whose reference cond(M) exceeds 1e6 are not judged (a float32 factorisation may legitimately break down there)
+  bad = _ILLCOND.get(ctx.get("world"), set())
+  blocks = [bl for bl in blocks if bl[0] not in bad]
+  if not all(np.all(np.isfinite(x[adr : adr + num])) for adr, num, _ in blocks):
     rec.violation(f"{name}: solution is not finite", sig=sig + ":nan", **ctx)
     return
   worst = 0.0
@@ -293,6 +299,7 @@ def check(case, rec):
   Mw = d.M.numpy().astype(np.float64)
   Mdense = [_csr_lower_to_dense(mjm, Mw[w]) for w in range(nworld)]
   usable = []
+  _ILLCOND.clear()
   for w in range(nworld):
     mjd = mujoco.MjData(mjm)
     H.set_mjd(mjd, states[w])
@@ -312,6 +319,7 @@ def check(case, rec):
       rec.err("log10cond", np.log10(max(cond, 1.0)))
       if cond > 1e6:
         rec.boundary_skipped += 1
+        _ILLCOND.setdefault(w, set()).add(adr)
         if ev[0] <= 0:
           ok = False
         continue
